@@ -140,3 +140,22 @@ claim("C17",
       "both start at 0xFFFFFFFF and return the complement; the wrapper forwards (buf,size); only the two implementations and the trampoline are installed. The semantics of the "
       "crc32 instructions and the equality of the two implementations as functions are not decided - the pinned tests only ever run the SSE4.2 path on this host.",
       "Trusts the slicing-by-8 derivation encoded in the rule, the inline-asm crc32 instructions, and little-endian loads on this target.")
+
+claim("C09",
+      "sibling/table agreement of writer-side emit sequences (abstract path evaluation) with the declarative MTBL v2 format table; path rules for CRC scope, restart cadence, size gate and offset bookkeeping",
+      "Decides: an entry is emitted as varint32 shared / non_shared / value_len, key suffix from key+shared, value, each at the write cursor which advances by exactly what was written; "
+      "shared is the common prefix with the previous key; the restart array is u32le (u64le iff the entries region exceeds UINT32_MAX) followed by the u32le count, and the size estimate "
+      "agrees with it; a framed block is varint64 length, 4-byte little-endian CRC32C, stored bytes, and the returned size is their sum; the checksum is taken over (data,len_data) of the "
+      "same block after their last definition and nothing between compression and the file changes them; restart cadence and reset table; a block is cut iff estimate+15+len_key+len_val "
+      ">= block_size; the index entry carries the offset the block started at and pending_offset starts at the descriptor's offset and grows by the bytes written; trailer layout as in C10. "
+      "The bytes of real files (which need an independent decoder run on outputs) and the separator arithmetic are not decided.",
+      "Trusts T-format (written from the LevelDB block format and mtbl's documentation), the varint/fixed codecs (C16 is not claimed), loop bound 1.")
+
+claim("C11",
+      "sibling agreement of the three reader-side framing decoders per format version (additive-term comparison of pointer expressions from abstract paths), mirror rules for the restart array, parse-sequence table check",
+      "Decides: in mtbl_reader_init_fd, get_block and mtbl_verify's block loop, for V1 and V2 alike, the length is read at +0, the stored CRC at +length-of-length and the payload at "
+      "+length-of-length+4 with the decoded length; each magic maps to its version and others are refused; the reader interprets restart offsets as 64-bit under the writer's threshold with "
+      "matching element widths and reads the count from the last four bytes; the single-byte fast path requires all three values < 128; an entry is rebuilt as clip(previous key, shared) ++ "
+      "non_shared bytes with the value after it, and nothing in the reader reads the writer's restart interval. Behaviour on legal encodings today's writer never produces is exactly what "
+      "only an independent encoder can exercise; it is not decided.",
+      "Trusts T-format, additive parsing of pointer expressions (no subtraction), loop bound 1.")
